@@ -130,6 +130,31 @@ theorem C19_unguarded_would_stamp (s : State) (e : Nat) (ent : Ent) (via : Optio
   cases via <;> simp only [Option.getD] at hres <;>
     rcases hk with hk | hk <;> simp only [step, hal, hres, hk, hc, ht, hv] <;> cases s.auto <;> simp
 
+/-- the second sentence of the property, call by call: with the switch off, a call of ANY member of
+any class (any entry of the generated table, any of its paths, accepted or refused, made directly or
+through a helper object) leaves the whole state as it is - no stamp of any entity moves.  Rests on
+`C19_no_unguarded_stamp`: for a path that stamps outside the switch test the model would write
+(`C19_unguarded_would_stamp`). -/
+theorem C19_switch_off_call_unchanged (s : State) (hoff : s.auto = false) (e : Nat) (via : Option Cls)
+    (m : Mem) (o : Outcome) : (step s (.call e via m o)).1 = s := by
+  simp only [step]
+  split
+  · rfl
+  · split
+    · rfl
+    · rename_i mb hres
+      split
+      · rfl
+      · rfl
+      · split
+        · rfl
+        · rename_i hin
+          simp only [hoff, Bool.false_eq_true, if_false]
+          split
+          · rename_i htouch
+            exact absurd htouch (Nix.Stamps.Lemmas.not_always C19_no_unguarded_stamp hres hin)
+          · rfl
+
 /-! ## where the machinery is named at all
 
 `stampSites` lists every place of nixio/**/*.py (the test suite excluded) that names `created_at`,
@@ -709,29 +734,60 @@ example : ∃ s, State.open 1000 true = .ok s ∧
     observe (step s (.create .block 0 .good)).1 1 .created = some (.ok (some 1000)) :=
   ⟨_, rfl, by decide +kernel⟩
 
-/-- `create_*(copy_from=src)` of a live array / frame / property inside a live owner: the copy carries the
-stored creation and update time of its source (`H5Group.copy` duplicates the attributes; whether or not the id
-is kept), and every existing entity — the source included — is exactly as it was -/
+/-- `create_*(copy_from=src)` / `copy_section(src)` of a live entity of a copyable kind inside a live owner:
+the entities that exist stay as they are; appended are the copies of `src` and of every live entity `src`
+owns (`subtree`), in order, and the `k`-th of them carries the kind and the stored creation and update time
+of the `k`-th member of the subtree (`H5Group.copy` duplicates the attributes; whether or not the ids are
+kept); `src` is itself a member, so it has a copy -/
 theorem C19_copy_keeps_source_stamps (s : State) (src p : Nat) (se pe : Ent)
     (hs : s.ents[src]? = some se) (hsa : se.alive = true) (hp : s.ents[p]? = some pe)
-    (hpa : pe.alive = true) (hv : validParent se.kind pe.kind = true)
-    (hleaf : se.kind = .dataArray ∨ se.kind = .dataFrame ∨ se.kind = .property) :
+    (hpa : pe.alive = true) (hv : validParent se.kind pe.kind = true) (hc : copyable se.kind = true) :
     (step s (.copy src p)).2 = .done ∧
-    (step s (.copy src p)).1.ents[s.ents.length]? =
-      some { kind := se.kind, parent := p, alive := true, created := se.created, updated := se.updated } ∧
-    (∀ j, j < s.ents.length → (step s (.copy src p)).1.ents[j]? = s.ents[j]?) := by
+    (step s (.copy src p)).1.ents = s.ents ++ copies s.ents src p ∧
+    (∀ j, j < s.ents.length → (step s (.copy src p)).1.ents[j]? = s.ents[j]?) ∧
+    (∀ k x, (subtree s.ents src)[k]? = some x →
+       ∃ e', (step s (.copy src p)).1.ents[s.ents.length + k]? = some e' ∧ e'.kind = x.1.kind ∧
+         e'.created = x.1.created ∧ e'.updated = x.1.updated ∧ e'.alive = true ∧
+         s.ents[x.2]? = some x.1) ∧
+    (se, src) ∈ subtree s.ents src := by
   have h1 : aliveAt s src = some se := by simp [aliveAt, hs, hsa]
   have h2 : aliveAt s p = some pe := by simp [aliveAt, hp, hpa]
-  have hl : (se.kind == .dataArray || se.kind == .dataFrame || se.kind == .property) = true := by
-    rcases hleaf with h | h | h <;> simp [h]
-  have hstep : step s (.copy src p) =
-      ({ s with ents := s.ents ++ [{ kind := se.kind, parent := p, alive := true,
-                                     created := se.created, updated := se.updated }] }, .done) := by
-    simp [step, h1, h2, hv, hl]
+  have hstep : step s (.copy src p) = ({ s with ents := s.ents ++ copies s.ents src p }, .done) := by
+    simp [step, h1, h2, hv, hc]
+  have hlt : src < s.ents.length := by
+    rcases Nat.lt_or_ge src s.ents.length with h | h
+    · exact h
+    · rw [List.getElem?_eq_none h] at hs; cases hs
   rw [hstep]
-  refine ⟨rfl, by simp, ?_⟩
-  intro j hj
-  simp [List.getElem?_append_left hj]
+  refine ⟨rfl, rfl, ?_, ?_, ?_⟩
+  · intro j hj
+    simp [List.getElem?_append_left hj]
+  · intro k x hk
+    have hx : x ∈ subtree s.ents src := List.mem_of_getElem? hk
+    have hxz : x ∈ s.ents.zipIdx := (List.mem_filter.mp hx).1
+    have hal : x.1.alive = true := by
+      have := (List.mem_filter.mp hx).2
+      simp only [Bool.and_eq_true] at this
+      exact this.1
+    have hget : s.ents[x.2]? = some x.1 := by
+      have := List.mem_zipIdx hxz
+      simp only [Nat.zero_le, Nat.zero_add, Nat.sub_zero, true_and] at this
+      obtain ⟨hl, heq⟩ := this
+      rw [List.getElem?_eq_getElem hl, heq]
+    refine ⟨copyOf s.ents (subtree s.ents src) src p x, ?_, rfl, rfl, rfl, hal, hget⟩
+    simp only
+    rw [List.getElem?_append_right (Nat.le_add_right _ _), Nat.add_sub_cancel_left]
+    simp [copies, hk]
+  · refine List.mem_filter.mpr ⟨?_, ?_⟩
+    · have hget : s.ents[src] = se := by
+        rw [List.getElem?_eq_getElem hlt] at hs
+        exact Option.some.inj hs
+      rw [← hget]
+      exact List.mem_zipIdx_iff_getElem?.mpr (by simp [hlt])
+    · simp only [hsa, Bool.true_and]
+      cases hn : s.ents.length with
+      | zero => omega
+      | succ n => simp [ownedBy]
 
 example : ∃ s, State.open 1000 true = .ok s ∧
     (run s [.create .block 0 .good, .create .dataArray 1 .good, .setClock 2000,
@@ -739,6 +795,15 @@ example : ∃ s, State.open 1000 true = .ok s ∧
       (fun e => (readStamp e.created, readStamp e.updated)) =
       [(.ok (some 1000), .ok (some 1000)), (.ok (some 1000), .ok (some 1000)),
        (.ok (some 1000), .ok (some 2000)), (.ok (some 1000), .ok (some 2000))] :=
+  ⟨_, rfl, by decide +kernel⟩
+
+/-- a tag with a feature, copied: the copy of the tag is owned by the block, the copy of the feature by
+the copy of the tag, each with the stamps of its source (created at 2000 / 3000, copied at 4000) -/
+example : ∃ s, State.open 1000 true = .ok s ∧
+    ((run s [.create .block 0 .good, .create .dataArray 1 .good, .setClock 2000, .create .tag 1 .good,
+             .setClock 3000, .create .feature 3 .good, .setClock 4000, .copy 3 1]).ents.drop 5).map
+      (fun e => (e.kind, e.parent, readStamp e.created, readStamp e.updated)) =
+      [(.tag, 1, .ok (some 2000), .ok (some 2000)), (.feature, 5, .ok (some 3000), .ok (some 3000))] :=
   ⟨_, rfl, by decide +kernel⟩
 
 /-! ## forcing a time stamp and reading it back, also after re-opening -/
